@@ -154,6 +154,16 @@ CLAIMED = {
         "Trusted: the reference codec (self-tested against the standard's worked LEB128 examples). The 64-bit range is covered by boundary windows, not value by value (evidence: subspace_exhaustive).",
         "DESIGN.md 6/C14",
     ),
+    "C15": (
+        "model_checking",
+        "explicit-state BFS over directive histories (35 events per ABI incl. location events); every transition runs the real evaluate_cfi_directives on a fresh module and is compared with an independent reference interpreter",
+        "The reachable state graph of the reference CFI interpreter (vf/cfimodel.py, written from DWARF 6.4) is explored breadth-first to the depth "
+        "bound; for every history the real evaluator must yield the same (block, offset, state) sequence, raise CFIStateError/ValueError at the "
+        "same step for ill-formed histories and nothing else, and copies taken at yield time must stay equal to their snapshot. X64, ARM64 and "
+        "big-endian MIPS32 ELF.",
+        "Trusted: the reference interpreter. PE ABIs define no DWARF return column and are out of scope; ARM64/MIPS32 are searched one event shallower than X64.",
+        "DESIGN.md 6/C15",
+    ),
     "C16": (
         "exploration",
         "bounded exhaustive enumeration of Constraints configurations per ABI; the prologue/epilogue produced by the real rewriting path is executed on a tiny concrete CPU with havoc at the patch body",
